@@ -840,13 +840,34 @@ def snapshot_at_membership_entry(**kw):
     return sc.rec
 
 
+def restart_empty_follower(**kw):
+    """a memory-only follower is stopped and comes back empty while the same leader stays in office: the leader had
+    counted its acknowledgements, the node now holds nothing of them - it must be brought back by entries or snapshot"""
+    sc = Script(base_cfg([1, 2, 3], fallback=100000), **kw)
+    s = sc.s
+    s.boot()
+    sc.elect(1)
+    sc.settle([1, 2, 3], 2)
+    for _ in range(4):
+        s.submit(1, size=10)
+    sc.settle([1, 2, 3], 4)           # everything acknowledged by 3
+    s.kill(3)
+    s.submit(1, size=10)
+    sc.settle([1, 2], 3)
+    s.restart(3)                      # same address, empty log
+    RC.quiet_period(s, timeouts=4, submit_on=2)
+    sc.rec.convergence = RC.convergence_problems(sc.rec, s, None, {})
+    return sc.rec
+
+
 SCENARIOS = {'d7': d7, 'd8': d8, 'd17': d17, 'd16': d16, 'd1': d1, 'd20': d20,
              'snapshot_catchup': snapshot_catchup, 'forwarded': forwarded,
              'restart_double_vote': restart_double_vote, 'd18': d18, 'd10': d10, 'd19': d19, 'd6': d6,
              'ser_fork': ser_fork, 'ser_custom': ser_custom, 'fig8': fig8, 'stale_match_reelected': stale_match_reelected,
              'stale_cursor': stale_cursor, 'compact_during_install': compact_during_install,
              'member_rollback': member_rollback, 'backoff_burst': backoff_burst, 'snapshot_members': snapshot_members, 'old_snapshot_again': old_snapshot_again, 'dump_kill_points': dump_kill_points, 'install_drops_acked': install_drops_acked,
-             'snapshot_at_membership_entry': snapshot_at_membership_entry}
+             'snapshot_at_membership_entry': snapshot_at_membership_entry,
+             'restart_empty_follower': restart_empty_follower}
 NAMES = sorted(SCENARIOS)
 
 
